@@ -171,7 +171,8 @@ def c17_keys(klepto, job):
     out = []
     for cell in job['cells']:
         tgt = keymon.Target(cell['spec'], 'func')
-        case = {'keymap': cell['keymap'], 'deco': cell.get('deco', 'inf'), 'safe': cell.get('safe', False)}
+        case = {'keymap': cell['keymap'], 'deco': cell.get('deco', 'inf'), 'safe': cell.get('safe', False),
+                'ignore': cell.get('ignore')}
         f = tgt.decorate(keymon.make_deco(case))
         kg = keymon.make_keygen(case)(tgt.plain)
         keys = []
@@ -204,6 +205,8 @@ def c17_session(klepto, job):
         mod = klepto.safe if cell.get('safe') else klepto
         cls = getattr(mod, cell['deco'] + '_cache')
         kw = {'cache': klepto.archives.cache(archive=arch), 'keymap': gen.build_keymap(klepto, cell['keymap'])}
+        if cell.get('ignore'):
+            kw['ignore'] = tuple(cell['ignore'])
         if cell['deco'] in ('lfu', 'lru', 'mru', 'rr'):
             kw['maxsize'] = cell.get('maxsize', 3)
             kw['purge'] = bool(cell.get('purge'))
@@ -403,6 +406,10 @@ def gen_cells_c17(rng, n, with_backend=False):
             calls.append([enc(a), enc(k)])
         cell = {'spec': spec, 'keymap': km, 'calls': calls, 'deco': rng.choice(['inf', 'lru', 'lfu', 'mru', 'rr', 'no']),
                 'safe': rng.random() < 0.3}
+        if rng.random() < 0.3:
+            names = keymon.spec_names(spec) + [x[0] for x in spec['kwonly']]
+            if names:
+                cell['ignore'] = [rng.choice(names)]     # puts klepto's NULL marker into the key
         if with_backend:
             for _ in range(50):
                 b = dict(rng.choice(PERSISTENT))
@@ -428,7 +435,8 @@ def order_mech(cell, call, order_a, order_b):
     try:
         from kv import keymon
         tgt = keymon.Target(cell['spec'], 'func')
-        f = tgt.decorate(keymon.make_deco({'keymap': cell['keymap'], 'deco': 'inf', 'safe': False}))
+        f = tgt.decorate(keymon.make_deco({'keymap': cell['keymap'], 'deco': 'inf', 'safe': False,
+                                           'ignore': cell.get('ignore')}))
         a, k = dec(call[0]), dec(call[1])
         ka = f.key(*a, **dict((n, k[n]) for n in order_a))
         kb = f.key(*a, **dict((n, k[n]) for n in order_b))
